@@ -18,7 +18,8 @@ import RedisGoModel.Raft.RSJ
       appended as an empty entry);
     * `applyTo k`: entries are applied one at a time (`ApplyConfChange` for every conf change: `single` / `enter` explicit or
       auto-leave / `leave`); after every conf-change entry a leader that still has a `Progress` and is not a learner runs `maybeCommit`
-      under the new configuration (`switchToConfig`), and the `Match` of an id that lost its `Progress` is forgotten;
+      under the new configuration (`switchToConfig`), and the `Match` of an id that lost its `Progress` is forgotten — also when a
+      later change of the same entry re-creates it (`lostDuring`: `[remove 3, add 3]` with 3 a learner; found by the lock-step);
     * `advance o` (`raft.advance`, the part after `appliedTo`): a LEADER whose configuration has `AutoLeave` and whose
       `pendingConfIndex` lies in `[o, applied]` (`o` = `raftLog.applied` before this `Advance`) appends the empty `ConfChangeV2` itself,
       not through the gate, and `pendingConfIndex` becomes its index;
@@ -71,12 +72,35 @@ def pendingFlagsJ (x : NodeC N) : List Bool :=
 inductive InputJ (N : Nat)
 | hup | prop (vs : List Nat) | selfAck | beat | restart (a : Nat) | applyTo (k : Nat) | advance (o : Nat) | recv (m : Msg1 N)
 
+/-- the ids whose `Progress` the Changer DELETES at some point while it works through the changes of one conf-change entry
+    (`Changer.remove`: `delete(prs, id)` unless the id is still an outgoing voter).  A later change of the same entry may give such an
+    id a new `Progress` (`initProgress`), whose `Match` starts at 0: `[remove 3, add 3]` on a configuration in which 3 is a learner
+    keeps 3 in the configuration and forgets what 3 had acknowledged. -/
+def lostDuring : RQJ.Config → List RQJ.Change → Finset Nat
+  | _, [] => ∅
+  | c, ch :: rest =>
+    match RQJ.applyOne c ch with
+    | .ok c' => (if RQJ.hasProgress c ch.id && !RQJ.hasProgress c' ch.id then {ch.id} else ∅) ∪ lostDuring c' rest
+    | .error _ => ∅
+
+def lostCC (c : RQJ.Config) : CC → Finset Nat
+  | .single ch => lostDuring c [ch]
+  | .enter _ ccs => lostDuring { c with outgoing := c.voters } ccs
+  | .leave => ∅
+
+/-- the `Progress` of node `j` survives the application of entry `a + 1` of `l` (it has one afterwards, and it is the one it had) -/
+def keepsProg (c0 : RQJ.Config) (l : Log) (a : Nat) (j : Fin N) : Bool :=
+  hasProg (cfgAt c0 l (a + 1)) j &&
+  !(match l[a]? with
+    | some e => (match ccOf e.data with | some cc => decide (nid j ∈ lostCC (cfgAt c0 l a) cc) | none => false)
+    | none => false)
+
 /-- apply ONE more entry -/
 def applyOneJ (c0 : RQJ.Config) (i : Fin N) (x : NodeC N) : NodeC N :=
   let x1 : NodeC N := { x with applied := x.applied + 1 }
   if confAt x.n.log (x.applied + 1) then
     let c := cfgOf c0 x1
-    let n1 : Node1 N := { x.n with matchI := fun j => if hasProg c j then x.n.matchI j else 0 }
+    let n1 : Node1 N := { x.n with matchI := fun j => if keepsProg c0 x.n.log x.applied j then x.n.matchI j else 0 }
     if x.n.role = .leader ∧ hasProg c i = true ∧ RQJ.isLearnerPr c (nid i) = false
     then { x1 with n := maybeCommitJ c n1 } else { x1 with n := n1 }
   else x1
